@@ -156,7 +156,7 @@ async fn world_run(c: &Case7) -> Outputs {
     } else {
         push!(world.contexts());
     }
-    let out = fault::run_all(futs, Duration::from_secs(120), Duration::from_secs(3)).await;
+    let out = fault::run_all(futs, Duration::from_secs(if c.pairs.len() > 20_000 { 1500 } else { 240 }), Duration::from_secs(3)).await;
     drop(world);
     out
 }
@@ -251,7 +251,7 @@ fn run() {
     let rt = fault::runtime(8);
     let seed = common::seed();
     let mut cases = Vec::new();
-    let maxw = if thorough { 5 } else { 4 };
+    let maxw = if thorough { 7 } else { 4 };
     for op in [Op::Add, Op::SatAdd, Op::Sub, Op::Geq, Op::Gt, Op::Mul] {
         for xw in 1..=maxw {
             for yw in 1..=maxw {
@@ -281,6 +281,13 @@ fn run() {
         }
     }
     if thorough {
+        // all 2^16 operand pairs of the 8-bit adders, subtractor and comparisons, both modes
+        for op in [Op::Add, Op::SatAdd, Op::Sub, Op::Geq, Op::Gt, Op::Mul] {
+            let pairs: Vec<(u128, u128)> = (0..256u128).flat_map(|x| (0..256u128).map(move |y| (x, y))).collect();
+            for malicious in [false, true] {
+                cases.push(Case7 { op, xw: 8, yw: 8, malicious, pairs: pairs.clone(), seed: seed + 800 + cases.len() as u64 });
+            }
+        }
         cases.push(Case7 { op: Op::Mul, xw: 8, yw: 8, malicious: false, pairs: (0..256u128).flat_map(|x| [(x, 0u128), (x, 1), (x, 127), (x, 128), (x, 255), (x, x)]).collect(), seed: seed + 999 });
     }
     let (w_i, w_n) = common::worker();
